@@ -98,6 +98,19 @@ def run_property(chk, pid):
             recs.append(X.record_for(p, obs, obs == single, sp))
             meta.append((p, "random", sp, None))
             model_fail.append(None)
+    # a file with more than 32768 field ids: the fields of the accessing class have indices >= 0x8000 (16-bit operands are unsigned)
+    nsx = "Lbig/"
+    pz = nsx + "Z;"
+    code = []
+    for fn, ft, sfx in (("x", "I", ""), ("y", "J", "-wide"), ("z", "Ljava/lang/String;", "-object")):
+        for how in ("iget", "iput", "sget", "sput"):
+            code.append(dict(op="rd" if how.endswith("get") else "wr", cls=pz, name=fn + ":" + ft, how=how + sfx))
+    p = dict(ns=nsx, classes=[dict(name=pz, fields=[("x", "I"), ("y", "J"), ("z", "Ljava/lang/String;")], methods=[dict(name="m()V", code=code)])],
+             extra_fields=[(nsx + "P;", "I", "f%05d" % k) for k in range(32780)])
+    obs = X.project(X.analyse(dex, X.build_dexes(p, [[0]])), None)
+    recs.append(X.record_for(p, obs, True))
+    meta.append((p, "random", "single", None))
+    model_fail.append(None)
     res = tlc.validate("Xref_Trace", "Xref_Trace.cfg", recs, shards=16, heap="3g", timeout=3000)
     chk.trace_result(res, "Xref_Trace")
     verdict = {gi: (set(why[0]), set(why[1])) for gi, why in res["rejects"]}
